@@ -37,6 +37,7 @@ def module_spec(draw, mid):
             "heap": draw(st.booleans()),
             "extern": draw(st.integers(0, 4)) == 0,
             "ending": draw(st.sampled_from(["exit0", "exit0", "exit", "assert", "oob"])),
+            "composite": draw(st.booleans()),                            # values printed through the recursive printer
             "partial": draw(st.sampled_from([False, False, True])),     # an unterminated line is pending when the program ends / faults
             "exit": draw(st.integers(1, 255))}
 
@@ -78,6 +79,15 @@ def module_source(m):
     if m["extern"]:
         L.append('    (println (+ "%s ext " (int_to_string (cast_int (sqrt 16.0)))))' % mark)
         L.append("    (println (is_alpha 65))")
+    if m.get("composite"):
+        L.append('    let tp: (int, string) = (%d, "%s-tuple")' % (m["id"] + 7, mark))
+        L.append("    (println tp)")
+        L.append("    let arr: array<int> = [%d, 2, 3]" % m["id"])
+        L.append("    (println arr)")
+        L.append('    let rec: Rec = Rec { n: %d, tag: "%s-rec" }' % (m["id"], mark))
+        L.append("    (println rec)")
+        L.append('    let nested: array<string> = ["%s-a", "b"]' % mark)
+        L.append("    (println nested)")
     L.append('    (println "%s end")' % mark)
     if m.get("partial"):
         L.append('    (print "%s partial:")' % mark)
